@@ -1,8 +1,11 @@
-(* Hand-written model of font/cmap.go: newCmap4, cmap4 / cmap12 / cmap13 / cmap6or10 Lookup, their
-   iterators run to completion (Next/Char until Next is false), RuneRanges, and remaperSymbol.Lookup.
+(* Hand-written model of font/cmap.go: newCmap4, sanitizeCmap4, sanitizeCmapGroups, cmap4 / cmap12 / cmap13 / cmap6or10
+   Lookup, their iterators run to completion (Next/Char until Next is false), RuneRanges, remaperSymbol / remaperPUA*
+   Lookup and the remaperIter enumeration.  (Format 0, format 14, newCmap6/10 and ProcessCmap are in Model/CmapSel.v.)
    uint16 / uint32 arithmetic wraps explicitly; rune(x) conversions are sint32.  No proofs here.
-   The model follows the code after the `fix:` commits (cmap4Iter adds idDelta modulo 65536; newCmap4 rejects
-   end < start, more than 2^16 resolved indexes and a negative index start). *)
+   The model follows the code after the `fix:` commits (cmap4Iter adds idDelta modulo 65536 and skips glyph-array
+   entries 0, as RuneRanges does; newCmap4 rejects end < start, more than 2^16 resolved indexes and a negative index
+   start; ProcessCmap sanitizes format 4 segments; cmap6or10.Lookup computes the index in 64 bits; the remapers have
+   their own Iter). *)
 From TV Require Export Lib.Bytes Lib.Res Model.RuneSet.
 
 (* ---------------------------------- format 4 ---------------------------------- *)
@@ -63,7 +66,9 @@ Fixpoint lookup4_loop (fuel : nat) (s : cmap4) (c i j : Z) : res (Z * bool) :=
 Definition lookup4 (s : cmap4) (r : Z) : res (Z * bool) :=
   if 65535 <? wrap32 r then Ok (0, false) else lookup4_loop (S (length s)) s (wrap32 r) 0 (zlen s).
 
-(* the pairs cmap4Iter yields for one segment *)
+(* the pairs cmap4Iter yields for one segment.  After the `fix:` commit "cmap format 4 Iter and RuneRanges leave out the
+   missing-glyph entries", Next skips the glyph index array entries equal to 0 (it indexes entry.indexes[pos2], which
+   panics on an empty non-nil array). *)
 Definition iter4_seg (e : seg4) : res (list (Z * Z)) :=
   match s4_idx e with
   | None =>
@@ -71,9 +76,9 @@ Definition iter4_seg (e : seg4) : res (list (Z * Z)) :=
       Ok (map (fun p => (p + s4_start e, wrap16 (wrap16 p + s4_start e + s4_delta e))) (zrange 0 (Z.to_nat (n + 1))))
   | Some ix =>
       if zlen ix =? 0 then Panic 1
-      else Ok (map (fun p => let g := znth 0 ix p in
-                             (p + s4_start e, if g =? 0 then 0 else wrap16 (g + s4_delta e)))
-                   (zrange 0 (length ix)))
+      else Ok (flat_map (fun p => let g := znth 0 ix p in
+                                  if g =? 0 then [] else [(p + s4_start e, wrap16 (g + s4_delta e))])
+                        (zrange 0 (length ix)))
   end.
 Fixpoint iter4 (s : cmap4) : res (list (Z * Z)) :=
   match s with
@@ -89,7 +94,32 @@ Definition rr_step (acc : list (Z * Z)) (se : Z * Z) : list (Z * Z) :=
   | [] => [se]
   end.
 Definition rune_ranges (l : list (Z * Z)) : list (Z * Z) := rev (fold_left rr_step l []).
-Definition rune_ranges4 (s : cmap4) : list (Z * Z) := rune_ranges (map (fun e => (s4_start e, s4_end e)) s).
+(* the maximal runs of non-zero entries of a glyph index array whose first entry is at rune `pos`;
+   `run` = start of the run in progress *)
+Fixpoint nz_runs (pos : Z) (ix : list Z) (run : option Z) : list (Z * Z) :=
+  let close := match run with Some a => [(a, pos - 1)] | None => [] end in
+  match ix with
+  | [] => close
+  | g :: r => if g =? 0 then close ++ nz_runs (pos + 1) r None
+              else nz_runs (pos + 1) r (match run with Some a => Some a | None => Some pos end)
+  end.
+Definition seg4_ranges (e : seg4) : list (Z * Z) :=
+  match s4_idx e with
+  | None => [(s4_start e, s4_end e)]
+  | Some ix => nz_runs (s4_start e) ix None
+  end.
+Definition rune_ranges4 (s : cmap4) : list (Z * Z) := rune_ranges (flat_map seg4_ranges s).
+
+(* sanitizeCmap4 (ProcessCmap): drop the segments that are empty or not after the previous kept one *)
+Fixpoint sanitize4_from (last : option Z) (s : cmap4) : cmap4 :=
+  match s with
+  | [] => []
+  | e :: r =>
+      if (s4_end e <? s4_start e) || (match last with Some l => s4_start e <=? l | None => false end)
+      then sanitize4_from last r
+      else e :: sanitize4_from (Some (s4_end e)) r
+  end.
+Definition sanitize4 (s : cmap4) : cmap4 := sanitize4_from None s.
 
 (* ---------------------------------- formats 12 and 13 ---------------------------------- *)
 Record grp := mkGrp { g_start : Z; g_end : Z; g_gid : Z }.   (* uint32 each *)
@@ -107,6 +137,21 @@ Fixpoint lookup12_loop (fuel : nat) (is13 : bool) (s : list grp) (c i j : Z) : r
         else Ok (if is13 then g_gid e else wrap32 (c - g_start e + g_gid e), true)
     end
   else Ok (0, false).
+(* sanitizeCmapGroups (newCmap12, newCmap13): drop the groups with end < start, start > unicode.MaxRune or not after the
+   previous kept group; clamp the end to unicode.MaxRune *)
+Definition max_rune : Z := 1114111.
+Fixpoint sanitize12_from (last : option Z) (s : list grp) : list grp :=
+  match s with
+  | [] => []
+  | e :: r =>
+      if (g_end e <? g_start e) || (max_rune <? g_start e)
+         || (match last with Some l => g_start e <=? l | None => false end)
+      then sanitize12_from last r
+      else let e' := mkGrp (g_start e) (if max_rune <? g_end e then max_rune else g_end e) (g_gid e) in
+           e' :: sanitize12_from (Some (g_end e')) r
+  end.
+Definition sanitize12 (s : list grp) : list grp := sanitize12_from None s.
+
 Definition lookup12 (s : list grp) (r : Z) : res (Z * bool) := lookup12_loop (S (length s)) false s (wrap32 r) 0 (zlen s).
 Definition lookup13 (s : list grp) (r : Z) : res (Z * bool) := lookup12_loop (S (length s)) true s (wrap32 r) 0 (zlen s).
 
@@ -120,11 +165,11 @@ Definition rune_ranges12 (s : list grp) : list (Z * Z) :=
 
 (* ---------------------------------- formats 6 and 10 ---------------------------------- *)
 Record cmap6 := mkCmap6 { c6_first : Z; c6_entries : list Z }.    (* firstCode is a rune (int32) *)
+(* c := int(r) - int(s.firstCode): 64-bit, no wrap (the `fix:` commit for start codes above 0x7FFFFFFF) *)
 Definition lookup6 (s : cmap6) (r : Z) : res (Z * bool) :=
   if r <? c6_first s then Ok (0, false)
-  else let c := sint32 (r - c6_first s) in
-       if zlen (c6_entries s) <=? c then Ok (0, false)
-       else if c <? 0 then Panic 1
+  else let c := r - c6_first s in
+       if (c <? 0) || (zlen (c6_entries s) <=? c) then Ok (0, false)
        else Ok (znth 0 (c6_entries s) c, true).
 Definition iter6 (s : cmap6) : list (Z * Z) :=
   map (fun p => (sint32 (p + c6_first s), znth 0 (c6_entries s) p)) (zrange 0 (length (c6_entries s))).
@@ -145,3 +190,31 @@ Fixpoint remap_symbol_fuel (fuel : nat) (inner : Z -> res (Z * bool)) (r : Z) : 
        else Ok (0, false).
 Definition remap_symbol (inner : Z -> res (Z * bool)) (r : Z) : res (Z * bool) :=
   remap_symbol_fuel (Z.to_nat (Z.max 0 ((255 - r) / 61440) + 2)) inner r.
+
+(* ---------------------------------- remaper iterators ---------------------------------- *)
+(* remaperIter (after the `fix:` commit "the legacy cmap remapers enumerate the runes they remap"): the pairs of the
+   wrapped cmap, then for r = 0 .. last the runes the wrapped cmap does not map but the remaper does *)
+Fixpoint remap_extra (wrapped remaper : Z -> res (Z * bool)) (rs : list Z) : res (list (Z * Z)) :=
+  match rs with
+  | [] => Ok []
+  | r :: t =>
+      do a <- wrapped r;
+      if snd a then remap_extra wrapped remaper t
+      else do b <- remaper r;
+           do rest <- remap_extra wrapped remaper t;
+           Ok (if snd b then (r, fst b) :: rest else rest)
+  end.
+Definition remap_iter (inner : list (Z * Z)) (wrapped remaper : Z -> res (Z * bool)) (last : Z) : res (list (Z * Z)) :=
+  do x <- remap_extra wrapped remaper (zrange 0 (Z.to_nat (last + 1))); Ok (inner ++ x).
+
+(* remaperPUASimp / remaperPUATrad .Lookup with the table function `pua` (0 = not remapped); the recursion
+   rs.Lookup(mapped) is bounded by fuel *)
+Fixpoint remap_pua_fuel (fuel : nat) (pua : Z -> Z) (inner : Z -> res (Z * bool)) (r : Z) : res (Z * bool) :=
+  do a <- inner r;
+  if snd a then Ok a
+  else let m := pua r in
+       if m =? 0 then Ok (0, false)
+       else match fuel with
+            | O => OutOfFuel
+            | S f => remap_pua_fuel f pua inner m
+            end.
